@@ -14,7 +14,7 @@ PROPS = {
     "C01": {
         "level": "proof",
         "units": ["angle", "jd", "civil", "astro", "top", "raw"],
-        "rule": "falsifier: oracle hour angle of the Sun at the reported Dhuhr (the computed hour wrapped into the requested civil date as reported, UT = local - gmt) within 10 s; all latitudes incl. poles, GMT within 6 h of lon/15, 9 methods, one case in five on 18-24 March (RA wrap), one in seven with the clock at GMT+-12 (branch zone-end); every case also checks the hypotheses of C01.residual_bound (1.7 <= d1 <= 2.3, |d2| <= 0.02, |H| <= 0.5) on the implementation's ephemeris of the three days; non-trivial = distinct (date, lat, lon)",
+        "rule": "falsifier: oracle hour angle of the Sun at the reported Dhuhr (the computed hour wrapped into the requested civil date as reported, UT = local - gmt) within 10 s; all latitudes incl. poles, GMT within 6 h of lon/15, 9 methods, one case in five on 18-24 March (RA wrap), one in seven with the clock at GMT+-12 (branch zone-end); every case also checks the hypotheses of C01.residual_bound (1.7 <= d1 <= 2.3, |d2| <= 0.019, |H| <= 0.5) on the implementation's ephemeris of the three days; non-trivial = distinct (date, lat, lon)",
         "trusted": ["independent ephemeris harness/src/oracle.rs ((i) Meeus ch.25, (ii) frozen VSOP87 snapshot with nutation as published; self-test (i) vs (ii) < 0.02 deg)",
                     "agreement of truncated VSOP87 with the sky and the envelope hypotheses of residual_bound are not theorems"],
         "assumptions": COMMON_ASSUME + ["Delta-T ignored by library and oracle"],
